@@ -227,8 +227,9 @@ def m_overlap(rec, clause, detail, finding):
     '''ArrayAssignment2LoopsTrans (also inside the reduction lowerings) turns an
     assignment whose right-hand side reads a different section of the target
     array into a forward element loop.'''
-    return clause == "SameObservable" and "ArrayAssignment2LoopsTrans" in rec["label"] \
-        and _sections_overlap(rec)
+    # NoNewUndefined: the wrongly re-read elements can grow beyond the exact domain
+    return clause in ("SameObservable", "NoNewUndefined") and \
+        "ArrayAssignment2LoopsTrans" in rec["label"] and _sections_overlap(rec)
 
 
 def _icalls(rec, names):
